@@ -90,8 +90,38 @@ func (vc *VC) Solve(o *Obl, dir string, quickSec, slowSec int, cross bool) {
 		return
 	}
 	o.File = file
+	// stage -2: behind a cut, the focused context (own cut fact + the facts marked keep)
+	if o.Cut != nil {
+		ffile := filepath.Join(dir, smtName(o.Name)+".focused.smt2")
+		if err := os.WriteFile(ffile, []byte(vc.focusedScript(o)), 0o644); err == nil {
+			rf := runSolver(solvers[0], ffile, quickSec)
+			o.TimeS += rf.secs
+			if rf.status == "unsat" {
+				o.Status, o.Solver, o.File = "unsat", rf.solver+" (focused context after cut)", ffile
+				return
+			}
+		}
+	}
+	// stage -1: a proof hint (the quantified assumptions an earlier proof used); sound whatever the hint says
+	if hs := hintFor(o.Name); hs != nil {
+		hfile := filepath.Join(dir, smtName(o.Name)+".hinted.smt2")
+		if err := os.WriteFile(hfile, []byte(vc.hintedScript(o, hs)), 0o644); err == nil {
+			rh := runSolver(solvers[0], hfile, 5)
+			o.TimeS += rh.secs
+			if rh.status == "unsat" {
+				o.Status, o.Solver, o.File = "unsat", rh.solver+" (core-hinted context)", hfile
+				return
+			}
+		}
+	}
 	// stage 0: the same obligation with the quantified assumptions about unrelated parts of the heap removed
-	if strings.Count(strings.Join(vc.cmds[:o.CtxLen], "\n"), "(forall ") > 40 {
+	nq := 0
+	for i, c := range vc.cmds[:o.CtxLen] {
+		if !vc.hidden(o, i, c) {
+			nq += strings.Count(c, "(forall ")
+		}
+	}
+	if nq > 40 {
 		sfile := filepath.Join(dir, smtName(o.Name)+".sliced.smt2")
 		if err := os.WriteFile(sfile, []byte(vc.slicedScript(o)), 0o644); err == nil {
 			r0 := runSolver(solvers[0], sfile, quickSec)
@@ -113,6 +143,11 @@ func (vc *VC) Solve(o *Obl, dir string, quickSec, slowSec int, cross bool) {
 	r := runSolver(solvers[firstIdx], file, stage1)
 	o.TimeS += r.secs
 	if r.status != "unsat" && r.status != "sat" {
+		if o.part {
+			// a conjunct of a split goal gets the cheap stages only; the whole goal is raced afterwards anyway
+			o.Status, o.Solver, o.Model = "unknown", r.solver, r.output
+			return
+		}
 		// stage 2: conjuncts of the goal one by one (a quantified conjunction is much harder than its parts)
 		if vc.solveSplit(o, dir, quickSec, slowSec) {
 			return
